@@ -2,6 +2,7 @@
 count-pairing rule T4 (C01/C05/C08/C09/C10)."""
 import collections
 from .frontend import walk, children, strip, strip_parens, qtype, dtype, Ext
+from .frontend import AnalysisBroken
 from .expr import canon, access_path, int_value, is_null, var_init
 from .own import propagate, node_events, cond_null_test, ALLOCATORS
 
@@ -686,6 +687,23 @@ def rule_t6(prog, rep, rid='T6'):
     rep.broken_if(f is None, 'default comparator (4 parameters, calls memcmp) not found in qtreetbl.c')
     if f is None:
         return
+    # key bytes the comparator looks at itself are unsigned: ordering them through plain (signed) char disagrees with
+    # memcmp() for bytes >= 0x80, and a comparator that mixes both is not even transitive
+    signed_cmp = None
+    for x in walk(f.body):
+        if x.get('kind') == 'BinaryOperator' and x.get('opcode') in ('<', '>', '<=', '>=', '-'):
+            ops = [strip(c) for c in children(x)]
+            if all(o.get('kind') in ('ArraySubscriptExpr', 'UnaryOperator') and
+                   (qtype(o) or '').replace('const ', '').strip() in ('char', 'signed char') for o in ops):
+                signed_cmp = x
+                break
+    rep.instance(rid)
+    rep.oblige(rid, signed_cmp is None, {'function': f.name, 'clause': 'key bytes are ordered as unsigned char'})
+    if signed_cmp is not None:
+        rep.violation(rid, f, signed_cmp.get('_line'), 'signed-bytes',
+                      '%s orders key bytes through plain char (%s): bytes >= 0x80 sort before ASCII, unlike memcmp() - keys that differ '
+                      'at such a byte are ordered inconsistently' % (f.name, canon(signed_cmp)[:60]))
+        return
     pn = [p.get('name') for p in f.params]
     for (n1, n2) in ((1, 2), (2, 2), (3, 2)):
         for m in (-1, 0, 1):
@@ -696,6 +714,10 @@ def rule_t6(prog, rep, rid='T6'):
                 seen_len.append(vals[2] if len(vals) > 2 else None)
                 return m
             r = run_function(prog, f, [1000, n1, 2000, n2], {'memcmp': memcmp_stub})
+            if r is None:
+                # a comparator the loop-free evaluator cannot tabulate (it inspects the bytes itself, loops, ...): no verdict
+                raise AnalysisBroken('%s: the default comparator cannot be tabulated over the 9 sign/length cases (it does not reduce '
+                                     'to memcmp() of the common prefix plus a length comparison)' % f.name)
             want = m if m != 0 else ((n1 > n2) - (n1 < n2))
             ok = r is not None and ((r > 0) - (r < 0)) == want and (not seen_len or seen_len[0] == min(n1, n2))
             rep.oblige(rid, ok, {'len1': n1, 'len2': n2, 'prefix_cmp': m, 'result': r, 'expected_sign': want})
@@ -787,20 +809,42 @@ def rule_t7(prog, rep, rid='T7'):
         # exits of the loop through its condition being false
         exits = [s for i in body for (s, lab) in f.cfg.nodes[i].succs if s.id not in body and f.cfg.nodes[i].kind == 'cond' and lab == 'F'
                  and f.cfg.nodes[i].line == head.line]
+        # what leaving the loop through its condition says about the cursor (`while (cursor != NULL)` left: cursor is NULL)
+        from .own import cond_null_test as _cnt
+        hfact = None
+        for i in body:
+            hn = f.cfg.nodes[i]
+            if hn.kind == 'cond' and hn.line == head.line and isinstance(hn.ast, dict) and any(s.id not in body and lab == 'F' for (s, lab) in hn.succs):
+                t_ = _cnt(hn.ast)
+                if t_:
+                    hfact = (t_[0], not t_[1])         # (path, is NULL on the F edge)
         for e in exits:
-            # from e to the function exit without a bump?
+            # from e to the function exit without a bump?  (the loop-exit fact about the cursor decides later tests of it,
+            # as long as it is not re-assigned)
             seen = set()
-            work = [e]
+            work = [(e, hfact)]
             while work:
-                m = work.pop()
+                m, fact = work.pop()
                 if m is f.cfg.exit:
                     bad = e
                     break
-                if m.id in seen or bumps(m):
+                if (m.id, fact) in seen or bumps(m):
                     continue
-                seen.add(m.id)
+                seen.add((m.id, fact))
+                if fact is not None and isinstance(m.ast, dict) and m.kind != 'macro':
+                    for y in walk(m.ast):
+                        if (y.get('kind') == 'BinaryOperator' and y.get('opcode') == '=' and access_path(children(y)[0]) == fact[0]) or \
+                                (y.get('kind') == 'VarDecl' and y.get('name') == fact[0]):
+                            fact = None
+                            break
                 for (s, _l) in m.succs:
-                    work.append(s)
+                    if fact is not None and m.kind == 'cond' and _l in ('T', 'F') and isinstance(m.ast, dict):
+                        t_ = _cnt(m.ast)
+                        if t_ and t_[0] == fact[0]:
+                            isnull_on_edge = (_l == 'T') == t_[1]
+                            if isnull_on_edge != fact[1]:
+                                continue
+                    work.append((s, fact))
             if bad:
                 break
     rep.oblige(rid, bad is None, {'function': f.name})
